@@ -693,6 +693,8 @@ class Executor:
             else:
                 raise Untranslatable("assign " + repr(v))
 
+        if re.search(r"\(PointerCoercion\((ReifyFnPointer|ClosureFnPointer|UnsafeFnPointer)", rhs):
+            return          # a function pointer (formatting machinery): no data the queries look at
         m = re.match(r"^(\*const|\*mut) .* from \((.*)\)$", rhs)
         if m:
             first = split_top(m.group(2))[0]
@@ -1014,7 +1016,7 @@ class Executor:
         fn = matches[0]
         st = State()
         self.paths = []
-        self.slice_end = end_line
+        self.slice_end = ([end_line] if (end_line and not isinstance(end_line, list)) else end_line) or None
         bb, first = "bb0", 0
         if start_line is not None:
             # blocks in breadth-first order from the entry: the slice starts at the EARLIEST statement of that line
@@ -1043,6 +1045,7 @@ class Executor:
         return fn, self.paths
 
     def exec_block(self, st, fn, bb, frame, stack, first=0):
+        started = first > 0 or (frame == "" and not st.visited and self.slice_end is not None)
         while True:
             tag = frame + bb
             if tag in st.visited:
@@ -1059,15 +1062,15 @@ class Executor:
                 for k, s in enumerate(stmts[:-1]):
                     if k < first:
                         continue
-                    if end and frame == "" and k < len(sl) and sl[k] and sl[k][0].endswith(end[0]) and sl[k][1] == end[1]:
-                        self.paths.append(Path(st, "stop", "end of slice", fn))
+                    if end and frame == "" and k < len(sl) and sl[k] and not (started and k == first) and any(sl[k][0].endswith(e[0]) and sl[k][1] == e[1] for e in end):
+                        self.paths.append(Path(st, "stop", "end of slice at line %d" % sl[k][1], fn))
                         return
                     self.exec_stmt(st, fn, s, frame)
-                first = 0
                 k = len(stmts) - 1
-                if end and frame == "" and k < len(sl) and sl[k] and sl[k][0].endswith(end[0]) and sl[k][1] == end[1]:
-                    self.paths.append(Path(st, "stop", "end of slice", fn))
+                if end and frame == "" and k < len(sl) and sl[k] and not (started and k == first) and any(sl[k][0].endswith(e[0]) and sl[k][1] == e[1] for e in end):
+                    self.paths.append(Path(st, "stop", "end of slice at line %d" % sl[k][1], fn))
                     return
+                first, started = 0, False
             except Untranslatable as e:
                 # the path must be shown infeasible by the query, otherwise the query is skipped
                 self.paths.append(Path(st, "untranslatable", str(e), fn))
